@@ -87,7 +87,8 @@ def gen_buffer_cfg(rng: random.Random):
 def make_strategy(rng: random.Random, kind=None, order=None):
     kind = kind or rng.choice(['random', 'random', 'pct', 'greedy', 'greedy-flip'])
     if kind == 'random':
-        return kind, detsched.RandomStrategy(rng)
+        # timed waits (the unchanged Buffer / fifo_stream have none on these paths) may expire while others can run
+        return kind, detsched.RandomStrategy(rng, timer_p=rng.choice([0.0, 0.1, 0.3]))
     if kind == 'pct':
         return kind, detsched.PCTStrategy(rng, depth=rng.choice([1, 2, 3, 5]), horizon=rng.choice([30, 100, 300]))
     order = order or rng.choice([['Buffer', 'fifo', 'parmapper', 'pool', 'main'], ['main', 'Buffer', 'fifo', 'pool'],
@@ -101,6 +102,8 @@ def run_buffer(cfg, strategy, max_steps=5000):
     """Runs the real Buffer under the scheduler. Returns a result dict."""
     from mpservice.streamer import _streamer
     S = detsched.Sched(strategy, max_steps=max_steps)
+    S.extra_yields = True
+    S.adversarial_what = ('get(', 'wait(')       # a timed queue read may expire while the producer is merely slow
     got = []
     res = {'outcome': None}
     ahead_max = [0]
@@ -219,6 +222,8 @@ def run_fifo(cfg, strategy, max_steps=20000):
     from mpservice.streamer import _streamer
     from . import vprims
     S = detsched.Sched(strategy, max_steps=max_steps)
+    S.extra_yields = True
+    S.adversarial_what = ('get(', 'wait(')       # a timed queue read may expire while the producer is merely slow
     got = []
     res = {'outcome': None}
     src_holder = []
